@@ -347,6 +347,10 @@ func (e BridgeEngine) setupSteps(r *Run, st *BridgeSt) []Step {
 		// a contract that accepts any call and any value: inbound bridge calls with a value find a callee (the
 		// callback sender holds nothing, half of the time it is given a little)
 		txs := []Tx{{K: "eth_call", S: "user/0", A: A("to", "", "data", hex.EncodeToString(InitCode(RecorderRuntime())), "value", "0"), Gas: 3_000_000}}
+		if r.Prop == "C04" {
+			// and one that re-enters the bridge from inside a bridge call (second contract of user/0)
+			txs = append(txs, Tx{K: "eth_call", S: "user/0", A: A("to", "", "data", hex.EncodeToString(InitCode(ForwarderRuntime())), "value", "0"), Gas: 3_000_000})
+		}
 		if rng.IntN(2) == 0 {
 			cb := common.BytesToAddress(authtypes.NewModuleAddress(cctypes.ModuleName))
 			txs = append(txs, Tx{K: "eth_call", S: "user/0", A: A("to", cb.Hex(), "data", "", "value", "5000"), Gas: 300_000})
